@@ -163,6 +163,51 @@ def restore_renamed(tree: ast.Module, modname: str, baseline: Optional[Dict[str,
     return log
 
 
+def restore_renamed_attributes(tree: ast.Module, modname: str) -> List[str]:
+    """step A: private instance attributes.  The frozen `__init__` of a class says `self._x = <e>`; if `_x` does not occur in the
+    module any more and the `__init__` of today binds a new private attribute to the same expression, that attribute is `_x` under
+    another name: it is renamed back throughout the module."""
+    known = known_functions().get(modname)
+    log: List[str] = []
+    if not known or 'sources' not in known:
+        return log
+    all_attrs = {n.attr for n in ast.walk(tree) if isinstance(n, ast.Attribute)}
+    for c in [c for c in tree.body if isinstance(c, ast.ClassDef)]:
+        src = known['sources'].get('%s.__init__' % c.name)
+        init = next((m for m in c.body if isinstance(m, ast.FunctionDef) and m.name == '__init__'), None)
+        if src is None or init is None:
+            continue
+
+        def inits(fn):
+            out = []
+            selfn = fn.args.args[0].arg if fn.args.args else 'self'
+            for st in ast.walk(fn):
+                if isinstance(st, ast.Assign) and len(st.targets) == 1 and isinstance(st.targets[0], ast.Attribute) \
+                        and isinstance(st.targets[0].value, ast.Name) and st.targets[0].value.id == selfn:
+                    out.append((st.targets[0].attr, ast.unparse(st.value)))
+            return out
+        try:
+            old = inits(ast.parse(src).body[0])
+        except SyntaxError:
+            continue
+        new = inits(init)
+        old_names = {a for a, _ in old}
+        gone = [(a, e) for a, e in old if a not in all_attrs and a.startswith('_') and not a.startswith('__')]
+        fresh = [(a, e) for a, e in new if a not in old_names and a.startswith('_') and not a.startswith('__')]
+        for a, e in gone:
+            cands = [b for b, e2 in fresh if e2 == e]
+            same_old = [x for x, e2 in gone if e2 == e]
+            if not cands or len(cands) != len(same_old):
+                continue
+            b = cands[same_old.index(a)]
+            for n in ast.walk(tree):
+                if isinstance(n, ast.Attribute) and n.attr == b:
+                    n.attr = a
+            fresh = [(x, e2) for x, e2 in fresh if x != b]
+            log.append('%s: attribute %s.%s was renamed to %s - analysed under its old name' % (modname, c.name, a, b))
+    return log
+
+
 def _bring_home(tree: ast.Module, q: str, nq: str, fn: ast.AST, cls: Optional[ast.ClassDef], old_params: Optional[List[str]]) -> bool:
     """A listed function was found in another scope of the same module (closure -> module level / private method, method ->
     module level).  A copy under the old name is put back where it was and the calls there are turned back; True on success."""
